@@ -96,6 +96,17 @@ def consistency_case(case, fail):
         if bool(r['success']) != suc:
             fail('trial_success', f'trial {j}: success={r["success"]}, codespace and no logical effect={suc}')
             break
+        if case['decoder'] in decoding.DETERMINISTIC:
+            # the trial must be a trial of the configured decoder: a fresh
+            # decoder returns the same correction for the recorded syndrome
+            want_c = np.asarray(decoding.make_decoder(case, code, em).decode(
+                np.asarray(code.measure_syndrome(np.asarray(r['error'])))))
+            if not np.array_equal(np.asarray(r['correction']) % 2, want_c % 2):
+                fail('trial_correction_is_decoder_output',
+                     f'trial {j}: recorded correction {np.nonzero(np.asarray(r["correction"]))[0].tolist()} '
+                     f'but the decoder returns {np.nonzero(want_c)[0].tolist()} for syndrome '
+                     f'{np.nonzero(synd)[0].tolist()}')
+                break
         if np.asarray(r['error']).any() and np.asarray(r['correction']).any():
             nt_count += 1
     # schedules
@@ -269,7 +280,7 @@ def setups(draw, table):
                    'max_bp_iter': draw(st.sampled_from([10, 1000]))}
     return {'decoder': dec, 'dparams': dparams, 'code': domain.code_case(cls, size),
             'direction': r, 'noise_deformation': nd, 'noise_kwargs': nk,
-            'error_rate': draw(st.sampled_from([0.02, 0.05, 0.1, 0.2, 0.3])),
+            'error_rate': draw(st.sampled_from([0.02, 0.05, 0.1, 0.2, 0.3, 0.6, 0.75, 0.9])),
             'seed': draw(st.integers(0, 2**31 - 1))}
 
 
@@ -293,7 +304,7 @@ def calibration_cases(draw, N=4000, N_synd=2000):
     case = draw(setups(SMALL))
     slow = case['decoder'] == 'UnionFindDecoder'
     case.update(kind='calibration', N=N // (4 if slow else 1), N_synd=N_synd)
-    case['error_rate'] = draw(st.sampled_from([0.05, 0.1, 0.2, 0.3]))
+    case['error_rate'] = draw(st.sampled_from([0.05, 0.1, 0.2, 0.3, 0.6, 0.8]))
     return case
 
 
